@@ -184,6 +184,12 @@ impl<T: FftNum> FftPlannerAvx<T> {
         self.plan_fft(len, FftDirection::Inverse)
     }
 
+    /// Plan report for verification: the plan for `len` as Debug text, without building any transform.
+    #[cfg(rustfft_verif)]
+    pub fn verif_plan(&self, len: usize, direction: FftDirection) -> String {
+        format!("{:?}", self.debug_plan_fft(len, direction))
+    }
+
     /// Returns a FFT plan without constructing it
     #[allow(unused)]
     pub(crate) fn debug_plan_fft(&self, len: usize, direction: FftDirection) -> MixedRadixPlan {
@@ -874,6 +880,8 @@ impl<A: AvxNum, T: FftNum> AvxPlannerInternal<A, T> {
         construct_butterfly_fn: impl FnOnce(&Self, usize, FftDirection) -> Arc<dyn Fft<T>>,
         inner_fft_fn: impl FnOnce(&mut Self, usize, FftDirection) -> Arc<dyn Fft<T>>,
     ) -> Arc<dyn Fft<T>> {
+        #[cfg(rustfft_verif)]
+        let verif_base_desc = format!("{:?}", plan.base);
         let mut fft = match plan.base {
             MixedRadixBase::CacheBase(len) => self.cache.get(len, direction).unwrap(),
             MixedRadixBase::ButterflyBase(len) => {
@@ -916,6 +924,9 @@ impl<A: AvxNum, T: FftNum> AvxPlannerInternal<A, T> {
             }
         };
 
+        #[cfg(rustfft_verif)]
+        crate::verif_hooks::emit_build(&format_args!("{}", verif_base_desc), &fft);
+
         // We have constructed our base. Now, construct the radix chain.
         for radix in plan.radixes {
             fft = match radix {
@@ -932,6 +943,9 @@ impl<A: AvxNum, T: FftNum> AvxPlannerInternal<A, T> {
                 16 => wrap_fft(MixedRadix16xnAvx::<A, T>::new(fft).unwrap()),
                 _ => unreachable!(),
             };
+
+            #[cfg(rustfft_verif)]
+            crate::verif_hooks::emit_build(&format_args!("Radix{}", radix), &fft);
 
             // Cache this FFT instance for future calls to `plan_fft`
             self.cache.insert(&fft);
